@@ -277,7 +277,7 @@ PROPERTIES = {
                 "{2,3,5,8,16} under a generated sleep plan (0-1500 us at the hook-H3 scheduling points): digests of positions, momenta, "
                 "connectivity, ids and statistics (wall-clock column removed) must be bit-identical. 'divide': cell_divider::run on 2-10 "
                 "cells with a generated eligible subset, 2-16 threads, sleep plans, the resize window held open 0.2-5 ms: no READ of the "
-                "population list may overlap a RESIZE by another thread; population size / ids / untouched cells / validity checked. "
+                "population list may overlap a RESIZE by another thread; population size / ids / untouched cells / validity checked; 1/5 of the ready cells fail their first attempt cleanly (cutting plane through one of their nodes) at a generated list position and are retried by a second call, after which ids must still be distinct. "
                 "'exceptions': parallel_exception_handler with 0-200 elements and 0-5 throwing positions of two exception classes, "
                 "refine_meshes with collapsing cells and mesh_writer::write with NaN coordinates at generated list positions, 1-16 threads. "
                 "Non-trivial = remeshing happened and >= 2 thread counts compared / >= 2 simultaneous divisions / >= 2 throwing elements "
